@@ -235,3 +235,18 @@ CHECKS["C06"] = {
     "outside": ["wall-clock reads between the five time.Now() calls of defaultTimeSet are one instant in the model"],
     "assumptions": PKI_ASSUME + ["time.Time.After/Before/Equal executed for real (merged)"],
 }
+
+CHECKS["C12"] = {
+    "groups": ["pki", "c12"],
+    "quick": {"match": "^H12", "budget": 900},
+    "thorough": {"match": "^[HT]12", "budget": 3000, "query_timeout_ms": 120000},
+    "replay": "model",
+    "what": "verify.TdxQuote executed several times in one symbolic world (stub outcomes are uninterpreted functions of their arguments, the getter is "
+            "a map from URL to response): accepted with revocation => accepted with collateral => accepted without; recording getter: no fetch "
+            "without GetCollateral, CRL endpoints only with CheckRevocations, TCB-info URL names the PCK FMSPC, PCK-CRL URL names platform / "
+            "processor by the leaf's issuer; an options value with arbitrary private pre-state gives the verdict and requests of a fresh one; "
+            "frame condition: exported option fields unchanged by a call",
+    "bounds": {"tcb_levels": "1", "module_identities": "0..1", "distribution_points": "0..2", "revoked_entries": "0..1"},
+    "outside": ["histories longer than one earlier call are covered by the one-step pre-state independence + frame argument (DESIGN.md C12), not enumerated"],
+    "assumptions": PKI_ASSUME,
+}
